@@ -173,31 +173,36 @@ def p2(ctx):
                           "new union-find entry for %s is followed by requeue(%s, Full) (here or in every caller)" % (role_str(idr), role_str(idr)),
                           "after the union-find entry of %s is rewritten, a path to return does not re-queue the usages of that class with Full — e-nodes keep pointing to a dead / wider class" % role_str(idr),
                           where_of(sub, c.bb))
-    ctx.floor("class-level change sites", nsites, 5)
+    ctx.floor("class-level change sites", nsites, 4)
 
 
 @rule("P3", doc="drain to fixpoint: the rebuild loops have no exit but 'empty' and nothing dirties after")
 def p3(ctx):
     crate = ctx.lib()
     wl = C.Worklist(crate)
-    for did in C.need("drain", sorted(wl.drains), 1):
+
+    def witnesses(b, field):
+        """edges "X is None" for X = next()/pop() on something derived from the field, or is_empty()==true"""
+        out = []
+        for sb in b.switch_blocks():
+            t = b.blocks[sb]["term"]
+            r = b.role_of_operand(t["discr"])
+            if r[0] == "discr":
+                inner = strip_role(r[1])
+                if isinstance(inner, tuple) and inner[0] == "call" and inner[1] in ("next", "pop", "pop_front", "first", "last") and role_mentions_field(inner, field):
+                    out.extend(C.variant_edges(b, sb, 0))
+            elif r[0] == "call" and r[1] == "is_empty" and role_mentions_field(r, field):
+                out.append(("e", sb, "otherwise"))
+        return out
+
+    C.need("pending drain", sorted(wl.pend_drains), 1)
+    C.need("modify drain", sorted(wl.mod_drains), 1)
+    for did in C.need("rebuild root", sorted(wl.drains), 1):
         b = crate.bodies[did]
         rets = b.return_blocks()
-        # witness edges: "X is None" for X = next()/pop() on something derived from the field, or is_empty()==true
-        def witnesses(field):
-            out = []
-            for sb in b.switch_blocks():
-                t = b.blocks[sb]["term"]
-                r = b.role_of_operand(t["discr"])
-                if r[0] == "discr":
-                    inner = strip_role(r[1])
-                    if isinstance(inner, tuple) and inner[0] == "call" and inner[1] in ("next", "pop", "pop_front", "first", "last") and role_mentions_field(inner, field):
-                        out.extend(C.variant_edges(b, sb, 0))
-                elif r[0] == "call" and r[1] == "is_empty" and role_mentions_field(r, field):
-                    out.append(("e", sb, "otherwise"))
-            return out
-        wp = witnesses("pending")
-        wm = witnesses("modify_queue")
+        # the loop may live in the root itself or in a split-off drain function called from it
+        wp = witnesses(b, "pending") + [c.bb for c in C.calls_to(crate, b, wl.pend_drains - {did}) if c.body is b]
+        wm = witnesses(b, "modify_queue") + [c.bb for c in C.calls_to(crate, b, wl.mod_drains - {did}) if c.body is b]
         ctx.check(bool(wp) and b.must_pass([0], rets, wp), "pending-exit:" + C.fkey(b),
                   "every path to return of %s passes the 'pending has no key left' edge" % C.short(did),
                   "%s can return while EGraph.pending is non-empty: a path to return avoids the None edge of next() on pending's keys" % C.short(did), where_of(b))
@@ -206,11 +211,26 @@ def p3(ctx):
                   "%s can return while EGraph.modify_queue is non-empty" % C.short(did), where_of(b))
         # nothing dirties after the pending witness except assumed-P external calls
         after = b.reach(wp) if wp else set()
-        dirty_after = [(k, bb, c) for (k, bb, c) in wl.dirty_sites(b) if bb in after]
+        dirty_after = [(k, bb, c) for (k, bb, c) in wl.dirty_sites(b) if bb in after and bb not in wp]
         # dirty sites inside the pending loop are also reachable from wp only through a back edge: there is none
         ctx.check(not dirty_after, "no-dirty-after-drain:" + C.fkey(b),
                   "no dirtying call is reachable after the pending loop has been left",
                   "after the pending loop is left %s still calls %s which can re-fill the work-list" % (C.short(did), [C.short(c.callee.target) for _, _, c in dirty_after]), where_of(b))
+    # split-off drain functions: the same exit discipline inside them
+    for field, ds, key in (("pending", wl.pend_drains, "pending-exit"), ("modify_queue", wl.mod_drains, "modify-exit")):
+        for did in sorted(ds - wl.drains):
+            b = crate.bodies[did]
+            w = witnesses(b, field)
+            ctx.check(bool(w) and b.must_pass([0], b.return_blocks(), w), key + ":" + C.fkey(b),
+                      "every path to return of %s passes the '%s is empty' edge" % (C.short(did), field),
+                      "%s can return while EGraph.%s is non-empty" % (C.short(did), field), where_of(b))
+            if field == "pending":
+                after = b.reach(w) if w else set()
+                dirty_after = [(k, bb, c) for (k, bb, c) in wl.dirty_sites(b) if bb in after]
+                ctx.check(not dirty_after, "no-dirty-after-drain:" + C.fkey(b), "no dirtying call is reachable after the pending loop has been left",
+                          "after the pending loop is left %s still dirties the work-list" % C.short(did), where_of(b))
+    for did in sorted(wl.pend_drains):
+        b = crate.bodies[did]
         # the loop body removes the chosen key and hands it to a handler
         rem = [c for c in b.calls if c.callee and c.callee.name == "remove" and c.args and role_mentions_field(b.role_of_operand(c.args[0]), "pending")]
         handlers = [c for c in b.calls if c.callee and c.callee.target in crate.bodies and c.callee.target not in wl.P]
@@ -260,10 +280,10 @@ def p4(ctx):
 
 def _handlers(crate, wl):
     out = set()
-    for did in wl.drains:
+    for did in wl.pend_drains:
         b = crate.bodies[did]
         for c in b.calls:
-            if c.callee and c.callee.target in crate.bodies and c.callee.target not in wl.P:
+            if c.callee and c.callee.target in crate.bodies and c.callee.target not in wl.P and c.callee.target not in wl.pend_drains | wl.mod_drains:
                 out.add(c.callee.target)
     return sorted(out)
 
@@ -363,28 +383,37 @@ def p7(ctx):
                 # re-asserted as equations (a call reaching the leader union) for every one of them
                 via_reassert = False
                 why = ""
-                parts = [c for c in b.calls if c.callee and c.callee.name in ("partition", "filter", "retain", "extract_if") and not b.blocks[c.bb]["cleanup"]
-                         and role_mentions_call(b.role_of_operand(c.args[0]), "generators")]
-                for pc in parts:
-                    cl = strip_role(b.role_of_operand(pc.args[1]))
-                    pred_ok = False
-                    if cl[0] == "agg" and cl[1] in crate.bodies:
-                        cb = crate.bodies[cl[1]]
-                        conts = [x for sub in cb.all_bodies() for x in sub.calls if x.callee and x.callee.name == "contains"]
-                        pred_ok = len(conts) >= 2     # membership of source AND image in the new slot set
-                    if not pred_ok:
-                        continue
+                # (1) the split predicate: membership of source and image in the new slot set compared by ==/!=
+                pred = None
+                for sub in b.all_bodies():
+                    cands = []
+                    for x in sub.calls:
+                        if x.callee and x.callee.name in ("eq", "ne") and len(x.args) == 2 and not sub.blocks[x.bb]["cleanup"]:
+                            cands.append((sub.role_of_operand(x.args[0]), sub.role_of_operand(x.args[1])))
+                    for y in role_walk(sub.role_of_local(0)):
+                        if isinstance(y, tuple) and y[0] == "bin" and y[1] in ("Eq", "Ne"):
+                            cands.append((y[2], y[3]))
+                    for r0, r1 in cands:
+                        r0, r1 = strip_role(r0), strip_role(r1)
+                        if all(isinstance(r, tuple) and r[0] == "call" and r[1] == "contains" and r[3] for r in (r0, r1)) and strip_role(r0[3][0]) == strip_role(r1[3][0]) and r0[3][1:] != r1[3][1:]:
+                            pred = sub
+                # (2) a loop over (something derived from) the old generators, after the slot store, running to
+                #     exhaustion, that re-asserts each element through the leader union
+                if pred is not None:
                     for lp in C.iterator_loops(b):
                         sb, it, none_e, some_e, cs = lp
-                        if not any(isinstance(x, tuple) and x[0] == "call" and x[4] == pc.bb for x in role_walk(it)):
+                        atoms = set()
+                        for x in role_walk(it):
+                            if isinstance(x, tuple) and x[0] == "call" and x[4] in b.call_at:
+                                for a_ in b.call_at[x[4]].args:
+                                    atoms |= set(d.atoms_of_operand(b, a_))
+                        if not mir.atoms_calls(atoms, "generators"):
                             continue
                         body = b.reach(some_e, avoid=none_e)
                         un = [x for x in b.calls if x.bb in body and x.callee and x.callee.target in reach_leader and x.callee.target != wid]
-                        if un and C.loop_exhaustive(b, lp) and all(b.must_pass(some_e, none_e, [x.bb]) or True for x in un):
-                            # the loop must run after the slot store (it relies on the shrunken class)
-                            if b.dominated_by(sb, [bi]):
-                                via_reassert = True
-                                why = "generators split by %s and re-asserted through %s" % (pc.callee.name, C.short(un[0].callee.target))
+                        if un and C.loop_exhaustive(b, lp) and b.dominated_by(sb, [bi]):
+                            via_reassert = True
+                            why = "generators are split by `contains(x) == contains(y)` on the new slot set and the rest is re-asserted, each one, through %s" % C.short(un[0].callee.target)
                 ctx.check(via_orbit or via_reassert, "orbit-feeds-slots:" + C.fkey(b),
                           "redundancy reaches the whole orbit: %s" % ("the stored slot set depends on Group::orbit" if via_orbit else why),
                           "the slot set stored in %s does not depend on the orbit of the newly redundant slots (it depends on calls %s) and the generators that map a kept slot to a dropped one are not re-asserted either: if d is redundant and a symmetry maps d to x then x is redundant too; dropping only d leaves generators that are not permutations of the slot set" % (
